@@ -51,6 +51,16 @@ def check(run, prog, tier):
     rule_R5(run, prog)
     rule_R6(run, prog)
     rule_R7(run, prog)
+    run.rule("C06-R8", "rate matrices and the Redfield tensor read the Hamiltonian, reorganisation energies and "
+                       "Fourier-transformed correlation functions under internal units", minimum=6)
+    from . import intunits
+    LS = "quantarhei.qm.liouvillespace."
+    intunits.check_classes(run, prog, "C06-R8",
+                           [LS + "rates.redfieldrates.RedfieldRateMatrix", LS + "rates.foersterrates.FoersterRateMatrix",
+                            LS + "rates.tdredfieldrates.TDRedfieldRateMatrix",
+                            LS + "redfieldtensor.RedfieldRelaxationTensor"], 6,
+                           "kT, the frequency cut-off and the time axis are internal: the rates no longer obey "
+                           "detailed balance at the stated temperature")
 
 
 def rule_R1(run, prog):
